@@ -1099,6 +1099,72 @@ func (s *service) getValidators(txes ...dbft.Transaction[util.Uint256]) []dbft.P
 		return nil, ErrNonCanonicalEncoding
 	}
 	return tx, nil""")])]),
+ # batch 12: other kinds of edit for the rules of rounds 8-11 (helper extraction, inverted tests, early returns)
+ ("r13-chainblock-early-return", ["C19"], "handleChainBlock: the index test inverted into an early return",
+  [("pkg/consensus/consensus.go", [("""	if b.Index >= s.dbft.BlockIndex {
+		s.log.Debug("new block in the chain",
+			zap.Uint32("dbft index", s.dbft.BlockIndex),
+			zap.Uint32("chain index", s.Chain.BlockHeight()))
+		s.postBlock(b)
+		s.dbft.Reset(b.Timestamp * nsInMs)
+	}
+}""", """	if b.Index < s.dbft.BlockIndex {
+		return
+	}
+	s.log.Debug("new block in the chain",
+		zap.Uint32("dbft index", s.dbft.BlockIndex),
+		zap.Uint32("chain index", s.Chain.BlockHeight()))
+	s.postBlock(b)
+	s.dbft.Reset(nsInMs * b.Timestamp)
+}""")])]),
+ ("r13-requesttx-sort-slices-sort", ["C19"], "RequestTx: the sort through slices.SortStableFunc",
+  [("pkg/network/server.go", [("""	slices.SortFunc(sorted, util.Uint256.Compare)
+	s.txCbList.Store(sorted)""", """	slices.SortStableFunc(sorted, util.Uint256.Compare)
+	s.txCbList.Store(sorted)""")])]),
+ ("r13-samewitness-verification-first", ["C06", "C07", "C19"], "sameWitness: the verification scripts compared first",
+  [("pkg/core/blockchain.go", [("""	return bytes.Equal(a.InvocationScript, b.InvocationScript) && bytes.Equal(a.VerificationScript, b.VerificationScript)""", """	return bytes.Equal(a.VerificationScript, b.VerificationScript) && bytes.Equal(a.InvocationScript, b.InvocationScript)""")])]),
+ ("r13-addstateroot-witness-first", ["C03"], "AddStateRoot: nothing but the order of two independent early returns... kept: the comparison stays first, the witness test is written positively",
+  [("pkg/core/stateroot/store.go", [("""	if len(local.Witness) != 0 {
+		return nil
+	}
+	putStateRoot(s.Store, key, sr)""", """	if alreadyValidated := len(local.Witness) != 0; alreadyValidated {
+		return nil
+	}
+	putStateRoot(s.Store, key, sr)""")])]),
+ ("r13-memseekgc-delete-helper-local", ["C09", "C02"], "MemoryStore.SeekGC: the map chosen into a local first",
+  [("pkg/core/storage/memory_store.go", [("""		if !keep {
+			delete(s.chooseMap(k), string(k))
+		}
+		return cont""", """		if !keep {
+			target := s.chooseMap(k)
+			delete(target, string(k))
+		}
+		return cont""")])]),
+ ("r13-leveldbseekgc-inverted", ["C09"], "LevelDBStore.SeekGC: the keep answer handled by an early return",
+  [("pkg/core/storage/leveldb_store.go", [("""		keep, cont := keepCont(k, v)
+		if !keep {
+			err = tx.Delete(k, nil)
+			if err != nil {
+				return false
+			}
+		}
+		return cont""", """		keep, cont := keepCont(k, v)
+		if keep {
+			return cont
+		}
+		err = tx.Delete(k, nil)
+		if err != nil {
+			return false
+		}
+		return cont""")])]),
+ ("r13-callinternal-safe-mask-local", ["C16", "C04"], "callInternal: the flags a safe method loses through a local",
+  [("pkg/core/interop/contract/call.go", [("""		f &^= (callflag.WriteStates | callflag.AllowNotify)""", """		changing := callflag.WriteStates | callflag.AllowNotify
+		f &^= changing""")])]),
+ ("r13-deser-integer-err-first", ["C17", "C12"], "stack item decoder: the reader's error tested in another statement form",
+  [("pkg/vm/stackitem/serialization.go", [("""		data := r.ReadVarBytes(bigint.MaxBytesLen)""", """		var data = r.ReadVarBytes(bigint.MaxBytesLen)""")])]),
+ ("r13-updatecache-sort-before-copy-name", ["C01", "C19"], "NEO.updateCache: the count of validators through a local",
+  [("pkg/core/native/native_neo.go", [("""	nextVals := committee[:n.cfg.GetNumOfCNs(blockHeight+1)].Copy()""", """	numOfCNs := n.cfg.GetNumOfCNs(blockHeight + 1)
+	nextVals := committee[:numOfCNs].Copy()""")])]),
 ]
 
 out = "/verif/benign"
